@@ -526,6 +526,14 @@ func ServerCheck(sc sim.Scenario, h *sim.History, opt ServerOptions) []Problem {
 						dupInvolved = true
 					}
 					if dupInvolved && (p.Sig == "C01/reply-mismatch" || p.Sig == "C01/handler-ran-for-non-request" || p.Sig == "C01/handler-not-run") {
+						// ... but a well-formed call whose id the model knows to be free and
+						// which is turned away as a duplicate is also a call whose handler
+						// never ran (C01), whatever went wrong with the id bookkeeping
+						if p.Member >= 0 && p.Member < len(r.members) && r.members[p.Member].dup == "" && r.members[p.Member].runs && r.members[p.Member].enterSeq < 0 {
+							q := *p
+							q.Sig = "C01/valid-call-turned-away"
+							probs = append(probs, q)
+						}
 						p.Sig = "C07/duplicate-id-handling"
 					}
 					// ... and to C06 if the member at fault is a call whose context ended
